@@ -124,6 +124,10 @@ def run(ctx):
         try: r = refcbor.encode(refcbor.repeat_key(refcbor.parse_all(schema.enc(t, v, rng)), rng))
         except Exception: continue
         exact.append({"id": "k%d" % i, "script": ["S r %s %s" % (nm, r.hex())], "expect": None, "meta": {"kind": "struct-repeated-key"}})
+        # ... and the same structure with one member missing: the reader must insist on exactly the mandatory members (model: Mand / MandNE)
+        try: r2 = refcbor.encode(refcbor.drop_member(refcbor.parse_all(schema.enc(t, v)), rng))
+        except Exception: continue
+        exact.append({"id": "j%d" % i, "script": ["S r %s %s" % (nm, r2.hex())], "expect": None, "meta": {"kind": "struct-member-missing"}})
     # (c) renderers on arbitrary strings (implementation only: no sanitizer report, no crash)
     rend = []
     names = [b"\x14" + b"a" * 19, b"\x01", b"\x03www", b"\x03www\x00", b"\xff", b"\x00", b"", b"\x01a\x3f" + b"b" * 10, b"\x05ab"]
@@ -169,6 +173,7 @@ def run(ctx):
         "stack and a 256 MiB allocation cap, outcome compared with the model up to the exception class; (c) renderers on arbitrary names / "
         "addresses; (d) the five tools on mutants: exit 0, no sanitizer report; (e) inputs longer than the decoder window cut inside long strings / with "
         "inflated lengths; (f) maps that repeat one key - whole files (8% of the mutants) and each of the 19 structures - what the reader makes of them "
-        "(the block's item vectors and tables append, everything else: last occurrence) compared exactly with the model; (g) members with unknown keys "
+        "(the block's item vectors and tables append, everything else: last occurrence) and structures with one member missing (exactly the mandatory "
+        "members are insisted on), compared exactly with the model; (g) members with unknown keys "
         "whose value is nested 60000 deep (arrays, indefinite arrays, tags, maps) in the preamble map and the first block map", diffs, fails)
     return {"diffs": diffs, "fails": fails, "to_script": lambda c: common.case_script(c)}
